@@ -120,6 +120,11 @@ Step ==
             /\ Del(e.pid)
             /\ unbal' = IF Balanced(P) THEN unbal ELSE unbal \cup {e.pid}
             /\ UNCHANGED <<J, own, pipe, cpipe, held, lost, work>>
+      [] e.ev = "LockWait" ->
+            \* builder.rs:836-858: the blocking wait for another builder's lock starts only when no child is running
+            \* any more and the own token has been given up (else two waiting processes can starve each other)
+            /\ Known /\ P.my = 0 /\ P.jobs = {} /\ ~P.pend
+            /\ Same
       [] e.ev = "WorkBegin" ->
             /\ work' = work \cup {e.pid} /\ UNCHANGED <<J, own, pipe, cpipe, pr, held, lost>>
       [] e.ev = "WorkEnd" ->
